@@ -19,7 +19,9 @@ var c13Args = []macArg{
 }
 
 func c13Ctx() gctx {
-	return gctx{{"sv", gStr("x&y")}, {"nv", gNil()}, {"iv", gInt(42)}}
+	// p0, p2, p3 collide with parameter names: an omitted parameter is still the parameter
+	// (empty), never the outer binding of the same name
+	return gctx{{"sv", gStr("x&y")}, {"nv", gNil()}, {"iv", gInt(42)}, {"p0", gStr("CTX0")}, {"p2", gStr("CTX2")}, {"p3", gInt(333)}}
 }
 
 func runC13(r *run) {
@@ -79,7 +81,11 @@ func runC13(r *run) {
 			var src string
 			switch mode {
 			case 0:
-				src = def + " %}" + body.String() + "{% endmacro %}[{{ m" + call + " }}]"
+				pre := ""
+				if g.chance(1, 2) {
+					pre = "{% set p1 = \"SET1\" %}{% set p4 = 44 %}"
+				}
+				src = pre + def + " %}" + body.String() + "{% endmacro %}[{{ m" + call + " }}]"
 			case 1:
 				w.files = []map[string]string{{"lib.tpl": def + " export %}" + body.String() + "{% endmacro %}"}}
 				src = "{% import \"lib.tpl\" m %}[{{ m" + call + " }}]"
